@@ -228,6 +228,14 @@ def mutate (sl : Slot) (verb : String) (args : List String) : Option (Slot × St
     let i ← nat? i; let j ← nat? j
     let (g', r) := if und then g.uRemoveEdge i j else g.dRemoveEdge i j
     pure (.gr und g', showUnit r)
+  | .gr und g, "removeFrontEdge", [i] => do
+    let i ← nat? i
+    match g.getOutNeighbours i with
+    | .ok [] => pure (.gr und g, "none")
+    | .ok (j :: _) =>
+      let (g', r) := if und then g.uRemoveEdge i j else g.dRemoveEdge i j
+      pure (.gr und g', showUnit r)
+    | r => pure (.gr und g, showRes joinNat r)
   | .gr und g, "removeSelfLoops", [] =>
     pure (.gr und (if und then g.uRemoveSelfLoops else g.dRemoveSelfLoops), "ok")
   | .gr und g, "removeDuplicateEdges", [] =>
@@ -260,6 +268,14 @@ def mutate (sl : Slot) (verb : String) (args : List String) : Option (Slot × St
     let i ← nat? i; let j ← nat? j
     let (m', r) := if und then m.uRemoveMultiedge i j 1 else m.dRemoveMultiedge i j 1
     pure (.mg und m', showUnit r)
+  | .mg und m, "removeFrontEdge", [i] => do
+    let i ← nat? i
+    match m.g.getOutNeighbours i with
+    | .ok [] => pure (.mg und m, "none")
+    | .ok (j :: _) =>
+      let (m', r) := if und then m.uRemoveMultiedge i j 1 else m.dRemoveMultiedge i j 1
+      pure (.mg und m', showUnit r)
+    | r => pure (.mg und m, showRes joinNat r)
   | .mg und m, "removeMultiedge", [i, j, k] => do
     let i ← nat? i; let j ← nat? j; let k ← nat? k
     let (m', r) := if und then m.uRemoveMultiedge i j k else m.dRemoveMultiedge i j k
@@ -296,6 +312,14 @@ def mutate (sl : Slot) (verb : String) (args : List String) : Option (Slot × St
     let i ← nat? i; let j ← nat? j
     let (w', r) := if und then w.uRemoveEdge i j else w.dRemoveEdge i j
     pure (.wg und w', showUnit r)
+  | .wg und w, "removeFrontEdge", [i] => do
+    let i ← nat? i
+    match w.g.getOutNeighbours i with
+    | .ok [] => pure (.wg und w, "none")
+    | .ok (j :: _) =>
+      let (w', r) := if und then w.uRemoveEdge i j else w.dRemoveEdge i j
+      pure (.wg und w', showUnit r)
+    | r => pure (.wg und w, showRes joinNat r)
   | .wg und w, "removeSelfLoops", [] =>
     pure (.wg und (if und then w.uRemoveSelfLoops else w.dRemoveSelfLoops), "ok")
   | .wg und w, "removeDuplicateEdges", [] =>
